@@ -20,17 +20,24 @@ LEAN_MODULES = ["BemppVerif.Props.C09"]
 N = "BemppVerif.C09."
 THEOREMS = [N + t for t in [
     "g2l_inverts_l2g",
-    "dp_dofs_are_elements", "dp_partition_of_unity",
+    "dp_dofs_are_elements", "dp_partition_of_unity", "localised_inverts",
     "p1_dof_is_vertex", "p1_dofs_are_selected_vertices", "p1_dof_count", "p1_support_extension",
     "p1_vertex_single_valued", "p1_continuous_on_edge", "p1_artificial_dof_owned", "p1_partition_of_unity",
+    "p1_whole_closed_grid_all_used",
     "rwg_artificial_dof_owned", "rwg_dof_is_edge", "rwg_dof_edges_selected", "rwg_sign_rule", "rwg_dof_count",
     "rwg_support",
     "rwg_normal_flux", "rwg_normal_continuous", "snc_tangential_flux",
-    "dual0_index_partition", "dual0_cell_is_vertex_patch", "dual1_tables_partition", "dual1_nodes_by_kind",
-    "dual1_barycentre_sum", "dual1_edge_sum", "dual1_vertex_sum",
-    "localised_inverts", "bc_spoke_cancellation_partial",
+    "dual0_index_partition", "dual0_tables_match_connectivity", "dual0_cell_is_vertex_patch",
+    "dual1_tables_partition", "dual1_nodes_by_kind", "dual1_edge_sum", "dual1_vertex_sum",
+    "dual_partition_of_unity_partial", "bc_spoke_cancellation_partial",
 ]]
 PARTIAL = {
+    N + "dual_partition_of_unity_partial":
+        "DUAL0/DUAL1 partition of unity: proved are the complete characterisation of the DUAL0 triplets "
+        "(dual0_cell_is_vertex_patch), that the extracted DUAL1 tables partition the 18 local dofs and put each value "
+        "on the node it is documented for, and that the values meeting at a node add up to 1; NOT proved as a theorem "
+        "over all grids: the row sums of dof_transformation equal 1 on a whole closed grid (exact correspondence of the "
+        "COO triplets + numerical oracle)",
     N + "bc_spoke_cancellation_partial":
         "BC/RBC: only the cancellation of the two coefficients on either side of a spoke in "
         "_interior_barycentric_edges_coefficients is a theorem; conformity (continuous normal / tangential component of "
@@ -556,8 +563,11 @@ def correspondence(ctx, deep=False):
         if sp is None:
             def h(ans, c=c):
                 exp = {"ValueError": "err value-error", "IndexError": "err index-error"}.get(c["error"])
-                if c["kind"] in ("BC0", "RBC0") and c["error"] == "ValueError":
-                    return  # screen + include_boundary_dofs is rejected before any bookkeeping (not modelled)
+                if c["kind"] in ("BC0", "RBC0"):
+                    # not modelled: screen + include_boundary_dofs (ValueError), a coarse RWG space without dofs
+                    # (IndexError), the fan traversal giving up on an inconsistently oriented fan (Exception)
+                    res.count("bc_rejected_" + str(c["error"]))
+                    return
                 if c["kind"] == "DUAL1" and c["error"] == "IndexError":
                     return  # empty support (outside the quantifier)
                 if exp is None or ans.strip() != exp:
@@ -587,6 +597,52 @@ def correspondence(ctx, deep=False):
         h(a)
     res.stats["spaces_by_kind"] = by_kind
     res.count("driver_requests", len(reqs))
+    res.merge(_bc_interior_correspondence(ctx))
+    return res
+
+
+def _bc_interior_correspondence(ctx):
+    """`_interior_barycentric_edges_coefficients` of grid.py on duck-typed inputs against `bcInteriorValues`"""
+    import random
+    import numpy as np
+    from bempp_cl.api.grid import grid as gridmod
+    res = Result()
+    rng = random.Random(ctx.seed * 101 + 3)
+
+    class _Data:
+        pass
+
+    class _Grid:
+        def __init__(self, ee):
+            self._d = _Data()
+            self._d.element_edges = ee
+
+        def data(self):
+            return self._d
+
+    reqs, expect = [], []
+    for _ in range(ctx.pick(12, 60)):
+        n = rng.randrange(0, 9)
+        nc = rng.randrange(1, 7)
+        sign = rng.choice([-1.0, 1.0])
+        nel = max(1, n)
+        ee = np.array([[rng.randrange(0, 12) for _ in range(nel)] for _ in range(3)])
+        lens = np.array([rng.randrange(1, 64) / 16.0 for _ in range(12)])
+        vertex_edges = [(rng.randrange(nel), rng.randrange(3)) for _ in range(n)]
+        l2g = np.arange(3 * nel).reshape(nel, 3)
+        vals, bd, cd = gridmod._interior_barycentric_edges_coefficients(lens, vertex_edges, _Grid(ee), l2g, sign, nc, 7)
+        used = [Fraction(float(lens[ee[le, el]])) for el, le in vertex_edges]
+        reqs.append(f"bcint {int(sign)} {nc} " + " ".join(f"{u.numerator}/{u.denominator}" for u in used))
+        expect.append((vals, bd, [int(l2g[el, le]) for el, le in vertex_edges], cd))
+    for ans, (vals, bd, bd_exp, cd) in zip(run_driver(reqs), expect):
+        t = ans.split()
+        res.case(("bcint", len(vals)), nontrivial=len(vals) >= 2)
+        mod = [Fraction(x) for x in t[1:]] if t[0] == "ok" else None
+        if mod is None or len(mod) != len(vals) or any(abs(float(a) - b) > 1e-15 * max(1.0, abs(b)) for a, b in zip(mod, vals)):
+            res.disagree("_interior_barycentric_edges_coefficients values", impl=[float(v) for v in vals][:8],
+                         model=[str(m) for m in (mod or [])][:8])
+        if [int(b) for b in bd] != bd_exp or any(int(c) != 7 for c in cd):
+            res.disagree("_interior_barycentric_edges_coefficients dofs")
     return res
 
 
@@ -643,10 +699,13 @@ def _jumps(sp, E, V, edge_elems, mode, rng, ntrial=2):
                 skipped += 1
                 continue
         if mode == "normal":
-            xa = [V[:, int(E[k, a])] for k in range(3)]
-            n = np.cross(xa[1] - xa[0], xa[2] - xa[0])
-            nu = np.cross(t, n)
-            nu = nu / np.linalg.norm(nu)
+            # outward conormal of each element in its own plane: orthogonal to the edge, away from the third vertex
+            nus = []
+            for el in (a, b):
+                third = [int(E[k, el]) for k in range(3) if int(E[k, el]) not in (va, vb)][0]
+                w = V[:, va] - V[:, third]
+                w = w - (w @ t) * t
+                nus.append(w / np.linalg.norm(w))
         tested += 1
         for coef, cn in coefs:
             fa, fb = _fun(sp, coef, a, pa), _fun(sp, coef, b, pb)
@@ -654,7 +713,8 @@ def _jumps(sp, E, V, edge_elems, mode, rng, ntrial=2):
             if mode == "value":
                 j = np.max(np.abs(d))
             elif mode == "normal":
-                j = np.max(np.abs(nu @ d))
+                # flux out of a through the edge = flux into b
+                j = np.max(np.abs(nus[0] @ fa + nus[1] @ fb))
             else:
                 j = np.max(np.abs(t @ d))
             scale = cn * max(1.0, float(np.max(np.abs(fa))), float(np.max(np.abs(fb))))
